@@ -21,7 +21,7 @@ from ..dataflow import Flow, chain, call_name
 from ..poly import Poly, eq
 from ..terms import Terms, reify, plain, match, V, ANY, show, subterms, \
     mk_cmp, is_none, stores, method_calls, truth_paths, yields, alternatives, \
-    one_level
+    one_level, as_lambda
 from ..util import calls_in, qual, formals, raises_of, returns_of
 
 MOD = "rig.machine_control.regions"
@@ -140,9 +140,17 @@ def r1_layout(program, folder, rep):
     if len(rets) != 1:
         raise AnalysisError("get_region_for_chip: one return expected")
     R = rets[0]
-    sel = [st for st in subterms(R) if st[0] == "binop" and
+    def operands(t):
+        # the members of the top-level or / sum of the region word
+        if t[0] == "binop" and t[1] in ("BitOr", "Add"):
+            return operands(t[2]) + operands(t[3])
+        return [t]
+    sel = [st for st in operands(R) if st[0] == "binop" and
            st[1] == "LShift" and st[2] == ("const", 1)]
     bits = set(st[3] for st in sel)
+    if not bits:
+        raise AnalysisError("get_region_for_chip: the select bit (1 << "
+                            "index) was not found in the form analysed")
     rep.check(len(bits) == 1, "C12-R1", inst, "exactly one select bit (1 << "
               "sub-block index) is set for a single chip",
               construct="select bit", node=fn)
@@ -183,6 +191,10 @@ def r1_layout(program, folder, rep):
            and yv[1][1][0] == "binop" and yv[1][1][1] == "BitOr"]
     oky = False
     lay2 = None
+    if len(own) != 1:
+        raise AnalysisError("get_regions_and_coremasks: the region word "
+                            "yielded for this node was not found in the "
+                            "form analysed")
     if len(own) == 1:
         word = own[0][1][1]
         for code, rest in ((word[2], word[3]), (word[3], word[2])):
@@ -428,6 +440,10 @@ def r3_collapse(program, folder, rep):
                 idx.append(t[1] if t[0] == "const" else None)
         except Exception:
             idx = None
+    if idx is None or None in idx:
+        raise AnalysisError("get_regions_and_coremasks: the order in which "
+                            "the sixteen children are visited is not given "
+                            "by foldable indices in this form")
     rep.check(idx is not None and None not in idx and
               sorted(idx) == list(range(16)), "C12-R3",
               qual(g), "the traversal visits each of the 16 children exactly "
@@ -458,9 +474,35 @@ def r4_order(program, folder, rep):
                 x[1][2] == "get_regions_and_coremasks" and \
                 x[1][1][0] == "call" and \
                 x[1][1][1] == ("global", "RegionCoreTree")
+        def key_ok(kws):
+            # (region << s) | mask with s wide enough for the 18-bit core
+            # mask orders exactly like the pair
+            if not kws:
+                return True
+            if len(kws) != 1 or kws[0][0] != "key":
+                return None
+            k = as_lambda(T, kws[0][1])
+            if k[0] != "lambda" or k[1] != 1 or k[2][0] != "binop" or \
+                    k[2][1] not in ("BitOr", "Add"):
+                return None
+            LP = ("lparam", 0)
+            for a_, b_ in ((k[2][2], k[2][3]), (k[2][3], k[2][2])):
+                if a_[0] == "binop" and a_[1] == "LShift" and \
+                        a_[2] == ("comp", LP, 0) and a_[3][0] == "const" and \
+                        b_ == ("comp", LP, 1):
+                    return a_[3][1] >= 18
+            return None
         if pt[0] == "call" and pt[1] == ("global", "sorted") and \
-                len(pt[2]) == 1 and not pt[3]:
-            ok = walk(pt[2][0])
+                len(pt[2]) == 1:
+            kk = key_ok(pt[3])
+            if kk is None:
+                raise AnalysisError("compress_flood_fill_regions: the sort "
+                                    "key is in a form that is not analysed")
+            inner_ = pt[2][0]
+            if inner_[0] == "call" and inner_[1] == ("global", "list") and \
+                    len(inner_[2]) == 1:
+                inner_ = inner_[2][0]
+            ok = kk and walk(inner_)
             detail = "sorted(...)"
         elif pt[0] == "call" and pt[1] == ("global", "list") and \
                 len(pt[2]) == 1 and walk(pt[2][0]):
